@@ -560,3 +560,12 @@ def check_landings(ctx, cls, lc):
                 ctx.check('R3', f'{cls.name}: {f.short} lets an exception landing in {callee}() propagate [{e.phase}]', not swallowed, f.short,
                           f'swallows-async@{callee}', f'{f.short} catches the WorkerTerminatedError raised inside {callee}() and carries on: '
                           'the target is interrupted but the worker neither stops nor reports it', where=loc(f, n.stmt))
+
+
+def run_thorough(ctx):
+    """bytecode tier (DESIGN E4): the AST-level CFG's landing statements and handler routing agree with CPython's exception tables"""
+    from ..bytecode import cross_check_all
+    st = cross_check_all(ctx)
+    ctx.stats['bytecode_tier'] = st
+    ctx.ob('E4', f"bytecode tier: {st['landing_instructions']} CALL-type landing instructions of {st['functions_cross_checked']} functions "
+                 f"({st['instructions']} instructions) are routed to the same handler as the async edges of the AST tier", True)
